@@ -983,7 +983,7 @@ def sweeps_for(target):
     for cls in ("DocContent", "DocxContent", "OdtContent"):
         if f"{cls}." in t or f"[{cls}]" in t:
             out.append(("heading:" + cls, lambda cls=cls: sweep_heading(cls)))
-            out.append(("sections:" + cls, lambda cls=cls: sweep_sections(cls, exclude=EXCLUDE.get(cls, ()))))
+            out.append(("sections:" + cls, lambda cls=cls: sweep_sections(cls, exclude=EXCLUDE.get(cls) or _recorded(cls))))
     if "_join_unit_text" in t:
         out.append(("join", sweep_join))
     if "_build_slides_from_text_blocks" in t:
@@ -1007,7 +1007,7 @@ def sweeps_for(target):
     if "eml_email_extractor" in t or "EmailContent." in t:
         out.append(("mail_parts:eml", lambda: sweep_mail_parts("eml")))
     if "mbox_email_extractor" in t:
-        out.append(("mail_parts:mbox", lambda: sweep_mail_parts("mbox", exclude=EXCLUDE.get("mbox", ()))))
+        out.append(("mail_parts:mbox", lambda: sweep_mail_parts("mbox", exclude=EXCLUDE.get("mbox") or _recorded("mbox"))))
     if "xlsx_extractor" in t:
         out.append(("xlsx", lambda: sweep_sheets("xlsx")))
     if "ods_extractor" in t:
@@ -1157,7 +1157,7 @@ DOCUMENT_SCOPES = {
     "xlsx": lambda: sweep_sheets("xlsx"),
     "ods": lambda: sweep_sheets("ods"),
     "eml": lambda: sweep_mail_parts("eml", exclude=EXCLUDE.get("eml", ())),
-    "mbox": lambda: sweep_mbox() or sweep_mail_parts("mbox", exclude=EXCLUDE.get("mbox", ())),
+    "mbox": lambda: sweep_mbox() or sweep_mail_parts("mbox", exclude=EXCLUDE.get("mbox") or _recorded("mbox")),
     "ppt": lambda: sweep_ppt_parse() or sweep_ppt_tokens() or check_ppt_fixture(),
 }
 
